@@ -520,6 +520,56 @@ def _single_membership(ctx):
     ctx.require(count >= 1, '<allocation>.add(<instance>) in Cell')
 
 
+def _message_assert(node):
+    """The test of `assert '<message>' [% args]` - a branch that was meant
+    to reject its input."""
+    expr = node.ast
+    if node.kind != 'test' or expr is None:
+        return False
+    if isinstance(expr, ast.BinOp) and isinstance(expr.op, ast.Mod):
+        expr = expr.left
+    return isinstance(expr, ast.Constant) and isinstance(expr.value, str)
+
+
+def _parameters_applied(ctx, alloc):
+    """The values the queue reads (rank, rank_adjustment, max_utilization,
+    reserved) are the ones last configured: Allocation.update assigns each of
+    them on every path, directly or through a setter that does - a value of
+    None means the default, never 'keep what was there'."""
+    upd = alloc.methods.get('update')
+    ctx.require(upd is not None, 'Allocation.update')
+    graph = ctx.cfg(upd)
+
+    def always_sets(func, attr, depth=0):
+        fgraph = ctx.cfg(func)
+
+        def sets(node):
+            if any(N.txt(t) == 'self.%s' % attr
+                   for t, _v, _k in K.assigns_attr(node)):
+                return True
+            if depth < 2:
+                for call in C.node_calls(node):
+                    if K.recv_text(call) == 'self' and \
+                            isinstance(call.func, ast.Attribute):
+                        callee = ctx.index.find_method(alloc,
+                                                       call.func.attr)
+                        if callee is not None and callee is not func and \
+                                always_sets(callee, attr, depth + 1):
+                            return True
+            return False
+        # a branch that only asserts 'unsupported input' is a rejection
+        seen = K.cut_reach(
+            fgraph, fgraph.entry,
+            cut_node=lambda n: sets(n) or _message_assert(n),
+            follow_exc=False)
+        return fgraph.exit not in seen
+    for attr in ('rank', 'rank_adjustment', 'max_utilization', 'reserved'):
+        ctx.ob('C06.2', upd, None, always_sets(upd, attr),
+               'Allocation.update assigns %s on every path (an omitted '
+               'value means the default, not the previous value)' % attr,
+               construct='update applies %s' % attr)
+
+
 def _unplaced(ctx):
     loop = PlacementLoop(ctx)
     nz = loop.nz
@@ -595,9 +645,10 @@ def _manifest_priority(ctx):
 
 
 def check(ctx):
-    _alloc, priv, merged = _generators(ctx)
+    alloc, priv, merged = _generators(ctx)
     _sort_key(ctx, priv)
     _rank(ctx, priv)
+    _parameters_applied(ctx, alloc)
     _sentinel(ctx, priv, merged)
     _layout(ctx, priv, merged)
     _exactly_once(ctx, priv, merged)
